@@ -282,6 +282,33 @@ def r10_9(ctx):
     delegate(ctx, c03.r03_9, lambda c: "Symbol.set_value/store self._user_value" in c or "Symbol.set_value/store self._was_set" in c)
 
 
+def r10_10(ctx):
+    """R10.10 loading stores every assignment of the file and judges it afterwards: Kconfig.set_value_and_source() - through which
+    load_config() applies each line - hands the value to set_value() without consulting ranges, visibility or current values
+    (C03 R03.9 for the setter itself). A range that becomes active only through a later line of the same minimal file would
+    otherwise reject a number that is valid in the complete configuration."""
+    from .common import EVALUATED, expand_locals, parse_key
+    repo = ctx.repo
+    f = repo.func(f"{CORE}:Kconfig.set_value_and_source")
+    ctx.analysed(f.qual)
+    fl = Flow(f.node, resolver=Resolver(f.node)).run()
+    calls = [n for n in ast.walk(f.node) if isinstance(n, ast.Call) and isinstance(n.func, ast.Attribute) and n.func.attr == "set_value"]
+    if not calls:
+        raise AnchorError("set_value_and_source no longer calls set_value()")
+    construct = "Kconfig.set_value_and_source/the value reaches set_value() whatever the configuration of the moment"
+    dep = []
+    for k, p in sorted(fl.guards_at(calls[0]) or set()):
+        full = expand_locals(f.node, parse_key(k))
+        if any(t in full for t in EVALUATED) or ".ranges" in full:
+            dep.append(f"{'' if p else 'not '}({full[:70]})")
+    loops = [n for n in ast.walk(f.node) if isinstance(n, (ast.For, ast.While)) and any(t in ast.unparse(n) for t in ("expr_value(", ".ranges", ".visibility"))]
+    if dep or loops:
+        ctx.bad(construct, f"the assignment is judged against the current configuration first ({dep or 'a loop over ' + ast.unparse(loops[0].iter)[:40]}): whether a line "
+                "of the file is applied depends on the lines that were read before it", f.loc(loops[0] if loops else calls[0]))
+    else:
+        ctx.ok(construct, f.loc(calls[0]))
+
+
 def rules():
-    return [("R10.9", r10_9, 2), ("R10.8", r10_8, 1), ("R10.7", r10_7, 1), ("R10.6", r10_6, 3), ("R10.1", r10_1, 4), ("R10.1b", r10_1b, 3), ("R10.2", r10_2, 4), ("R10.2b", r10_2b, 2), ("R10.3", r10_3, 2),
+    return [("R10.10", r10_10, 1), ("R10.9", r10_9, 2), ("R10.8", r10_8, 1), ("R10.7", r10_7, 1), ("R10.6", r10_6, 3), ("R10.1", r10_1, 4), ("R10.1b", r10_1b, 3), ("R10.2", r10_2, 4), ("R10.2b", r10_2b, 2), ("R10.3", r10_3, 2),
             ("R10.4", r10_4, 1), ("R10.5", r10_5, 5)]
